@@ -94,6 +94,22 @@ func fCases(rng *rand.Rand, n int) {
 		}
 		fmt.Fprintf(out, "assignerr %d\t%s\n", code, strings.ReplaceAll(res, " ", "_"))
 	}
+	// what the library's Conn concludes from per-partition error codes on the wire: the first non-zero one
+	pool := []int16{3, 5, 6, 7, 14, 15, 16, 22, 25, 26, 27, 29, 30}
+	for i := 0; i < n/5; i++ {
+		parts := 1 + rng.Intn(5)
+		codes := make([]int16, parts)
+		var cs []string
+		for j := range codes {
+			if rng.Intn(3) == 0 {
+				codes[j] = pool[rng.Intn(len(pool))]
+			}
+			cs = append(cs, fmt.Sprint(codes[j]))
+		}
+		for _, m := range []string{"offsetCommit", "offsetFetch"} {
+			fmt.Fprintf(out, "conncodes %s %s\t%s\n", m, strings.Join(cs, ","), kafka.VerifGroupWireConclusion(m, parts, codes))
+		}
+	}
 	for i := 0; i < n; i++ {
 		topics := [][]string{{"t"}, {"t", "u"}, {"u", "t", "w"}}[rng.Intn(3)]
 		start := []int64{kafka.FirstOffset, kafka.LastOffset}[rng.Intn(2)]
